@@ -28,7 +28,12 @@ def _globals(cfg):
 
 def _points(ctx, cfg):
     sh = tuple(cfg["pshape"])
-    return ctx.reals("e", sh), ctx.reals("n", sh)
+    e, n = ctx.reals("e", sh), ctx.reals("n", sh)
+    if cfg.get("mem") == "F":
+        e, n = np.asfortranarray(e), np.asfortranarray(n)
+    elif cfg.get("mem") == "T":
+        e, n = np.ascontiguousarray(e.T).T, np.ascontiguousarray(n.T).T
+    return e, n
 
 
 def _claims(ctx, blocks, labels, e, n, w, s, we, hn, ne, nn, nondeg=True):
@@ -113,6 +118,7 @@ def _cfg_shape(tier, seed):
             {"shape": (1, 3), "pshape": (1,), "region": "given"},
             {"shape": (2, 1), "pshape": (2,), "region": "inferred"},
             {"shape": (2, 3), "pshape": (1,), "region": "given"},
+            {"shape": (1, 2), "pshape": (2, 2), "region": "given", "mem": "F"},
         ]
     else:
         for sh in [(1, 1), (1, 3), (3, 1), (2, 2), (2, 3), (3, 2)]:
@@ -121,6 +127,8 @@ def _cfg_shape(tier, seed):
             out.append({"shape": sh, "pshape": (2,), "region": "given"})
             out.append({"shape": sh, "pshape": (2,), "region": "inferred"})
         out.append({"shape": (2, 2), "pshape": (1, 2), "region": "given"})
+        out.append({"shape": (1, 2), "pshape": (2, 2), "region": "given", "mem": "T"})
+        out.append({"shape": (2, 1), "pshape": (2, 2), "region": "inferred", "mem": "F"})
         out.append({"shape": (2, 2), "pshape": (3,), "region": "inferred"})
     return out
 
